@@ -10,6 +10,7 @@ from __future__ import annotations
 import contextvars
 import operator
 import typing
+import weakref
 from abc import abstractmethod, ABC
 from collections import UserDict
 from copy import copy
@@ -153,7 +154,9 @@ class SymbolicExpression(Generic[T], ABC):
     _child_: Optional[SymbolicExpression] = field(init=False)
     _id_: int = field(init=False, repr=False, default=None)
     _node_: RWXNode = field(init=False, default=None, repr=False)
-    _id_expression_map_: ClassVar[Dict[int, SymbolicExpression]] = {}
+    _id_expression_map_: ClassVar[typing.MutableMapping[int, SymbolicExpression]] = (
+        weakref.WeakValueDictionary()
+    )
     _conclusion_: typing.Set[Conclusion] = field(init=False, default_factory=set)
     _symbolic_expression_stack_: ClassVar[List[SymbolicExpression]] = []
     _is_false_: bool = field(init=False, repr=False, default=False)
